@@ -14,7 +14,7 @@ TInit == RInit /\ WInit /\ cut = 0 /\ l = 2 /\ nret = 0 /\ TLCSet(1, 0)
 IntEn == wph = "writing" /\ woff >= Len(wbuf)
 LastK == wsched'[Len(wsched')].k
 Ev(e) == \/ e.ev = "write"  /\ WStart  /\ LastK = e.k /\ UNCHANGED nret
-         \/ e.ev = "accept" /\ WAccept /\ LastK = e.k /\ UNCHANGED nret
+         \/ e.ev = "accept" /\ WAcceptK(e.k) /\ LastK = e.k /\ UNCHANGED nret
          \/ e.ev = "intr"   /\ WIntr   /\ UNCHANGED nret
          \/ e.ev = "zero"   /\ WZero   /\ UNCHANGED nret
          \/ e.ev = "fail"   /\ WFail   /\ UNCHANGED nret
